@@ -73,6 +73,31 @@ def replay(c, out, fmt, combos, newtons):
                     r = func.value_at(nxt, rho, act)
                     if np.abs(r).max() > 1e-9 * scale * amp:
                         errs.append(("onestep", ss.name, ls.name, nt.name, float(np.abs(r).max())))
+    # with an explicit active-set prediction step tau (ActiveSetType.Explicit / Smallest / Largest hand one to every variant)
+    # the three variants must still take the same first step from the same start
+    if start:
+        for tau in (0.25 * dt, 4.0 * dt):
+            for ss in (StepSolverType.Standard, StepSolverType.Symmetric):
+                got = {}
+                for nt in (NewtonType.Full, NewtonType.Simplified, NewtonType.ActiveSet):
+                    params = Params(step_solver_type=ss, linear_solver_type=LinearSolverType.LU, newton_type=nt)
+                    it = Iterate(prob, params, x, y)
+                    orig = Iterate(prob, params, x, y)
+                    try:
+                        st = newton_method(prob, params, orig, dt, rho, tau).step(it)
+                        got[nt.name] = (np.array(st.dx, dtype=float), float(st.dy[0]))
+                    except Exception as e:  # noqa: a singular system for this active set is the same for all variants
+                        got[nt.name] = ("raise", type(e).__name__)
+                ref = got["Full"]
+                for name in ("Simplified", "ActiveSet"):
+                    g = got[name]
+                    if isinstance(ref[0], str) or isinstance(g[0], str):
+                        same = isinstance(ref[0], str) and isinstance(g[0], str)
+                    else:
+                        tol = TOL[LinearSolverType.LU] * amp * (1.0 + np.abs(ref[0]).max() + abs(ref[1]))
+                        same = bool(np.abs(g[0] - ref[0]).max() <= tol and abs(g[1] - ref[1]) <= tol)
+                    if not same:
+                        errs.append(("firststep.tau", ss.name, "LU", name, float(tau / dt)))
     # the step is a function of (point, step size, penalty, active set): re-using one solver object across active-set
     # changes must not change it (derivative data must not be modified by a rebuild of the system matrix)
     from pygradflow.step.solver import step_solver
@@ -111,7 +136,7 @@ def main():
         newtons = (NewtonType.Full, NewtonType.Simplified, NewtonType.ActiveSet)
         stride = 1 if chk.thorough else 2
         for si, st in enumerate(states):
-            if si % stride:
+            if ((si * 2654435761 >> 8) + chk.seed) % stride:      # scattered, not periodic: the enumeration order is structured
                 continue
             c, out = st["c"], st["out"]
             combos = COMBOS if (chk.thorough or si % 4 == 0) else COMBOS[(si // 2) % len(COMBOS):][:3]
